@@ -49,6 +49,7 @@ func (s *State) clone() *State {
 
 // Exec verifies one function (with inlined callees) and collects obligations.
 type Exec struct {
+	orphanLoops map[*ssa.Function][]*LoopSpec // loop clauses of the root contract whose loop lives in an inlined helper
 	L           *Loaded
 	DB          *SpecDB
 	smt         *SMT
@@ -77,6 +78,7 @@ type Exec struct {
 
 // Frame is one (possibly inlined) function activation.
 type Frame struct {
+	allowOrdinalFallback bool // bindLoopSpecs may fall back to the recorded loop position
 	x        *Exec
 	fn       *ssa.Function
 	reg      map[ssa.Value]Value
@@ -633,6 +635,13 @@ func rootAlloc(v ssa.Value) *ssa.Alloc {
 	}
 }
 
+// baselineLoopOrdinal: for "function|selector", the ordinal the loop clause bound to when the
+// baseline was recorded; loopOrdinalSeen: what it binds to in this run.
+var (
+	baselineLoopOrdinal = map[string]int{}
+	loopOrdinalSeen     = map[string]int{}
+)
+
 // bindLoopSpecs attaches contract loop clauses to loop headers.
 func (fr *Frame) bindLoopSpecs() []string {
 	var errs []string
@@ -694,11 +703,29 @@ func (fr *Frame) bindLoopSpecs() []string {
 			}
 		}
 		if found == nil {
+			// The loop's range expression or condition was reworded (a renamed local, a hoisted
+			// expression): fall back to the position the clause had among the function's loops
+			// when the baseline was recorded, provided no other clause claims that loop.
+			// (only when the function still has as many loops as it had then, i.e. the edit
+			// reworded a loop rather than adding, removing or moving one, and only once the
+			// clause was not found in an inlined helper either - see runTop)
+			if ord, ok := baselineLoopOrdinal[fr.fn.String()+"|"+ls.Selector]; ok && fr.allowOrdinalFallback && baselineLoopOrdinal[fr.fn.String()+"|#loops"] == len(cands) {
+				for _, li := range cands {
+					if li.ordinal == ord && li.spec == nil {
+						found = li
+						fr.x.note(fmt.Sprintf("loop clause %q bound by its recorded position #%d (its text no longer occurs)", ls.Selector, ord))
+					}
+				}
+			}
+		}
+		if found == nil {
 			errs = append(errs, fmt.Sprintf("loop %q not found", ls.Selector))
 			continue
 		}
 		found.spec = ls
 		ls.matched = true
+		loopOrdinalSeen[fr.fn.String()+"|"+ls.Selector] = found.ordinal
+		loopOrdinalSeen[fr.fn.String()+"|#loops"] = len(fr.loops)
 	}
 	return errs
 }
